@@ -91,8 +91,13 @@ THEOREMS = [
     "C05.queryVars_no_panic",
     "C05.actionArgs_no_panic",
     "C05.importSpec_no_panic",
+    # --- fourth part (Model4 / Theorems4): the COST of evaluate_expression - number of calls, not only depth
+    "C05.evalCalls_value",
+    "C05.evalCalls_linear",
+    "C05.evalCalls_4k",
+    "C05.evalFallThrough_counterexample",
 ]
-LEAN_TARGETS = ["RreModel.C05.Theorems", "RreModel.C05.Theorems2", "RreModel.C05.Theorems3"]
+LEAN_TARGETS = ["RreModel.C05.Theorems", "RreModel.C05.Theorems2", "RreModel.C05.Theorems3", "RreModel.C05.Theorems4"]
 N = {"quick": 14000, "thorough": 200000}
 ROBUST_N = {"quick": 12000, "thorough": 150000}
 ROBUST_BUDGET_S = {"quick": 75, "thorough": 700}
@@ -143,6 +148,15 @@ RULE = ("PROOF PART: cases = corpus + every string of length <= 3 over {e-acute,
         "(parse_rules and GRLQueryParser::parse every component, parse_with_modules / parse_rule / parse_queries every fourth); text in front "
         "of the leaf regexes stays <= 48 bytes and a when leaf <= 150 bytes (F-C05h; accumulate(...) leaves, literal bodies and everything "
         "outside the when clause are not limited) "
+        "+ the CHAIN family on evaluate_expression (cost: C05.evalCalls_linear says at most 2n + 1 calls on n chars): operator chains of 8, 12, 16, "
+        "20, 30 terms x 32 operator mixes (each operator alone, the 20 ordered pairs alternating, both cycles of all five, a +- block before / "
+        "behind a */% block, three seeded random mixes) x 49 operand patterns (all operands evaluate; an unknown field / nothing at all = leading, "
+        "trailing, doubled operator / a parenthesised group / a malformed number / an unterminated quote / a boolean / a non-numeric string / a "
+        "signed number -3, +3 / two numbers / a multi-byte name at the left end, in the middle, at the right end, at both ends; signed operands or "
+        "unknown fields everywhere) x 3 spacings, chains of 60 and 120 terms for 15 of the mixes, and chains of 500 / 1000 / 2047 one-byte terms "
+        "(1 .. 4 KiB, the bound of the quantifier); the long chains run first and every case is under the per-case deadline CASE_TIMEOUT (a "
+        "blow-up is reported as `hang:V:evaluate_expression-superlinear` with the input; microseconds per case on the unchanged tree) "
+        "+ a string literal still open at the END of the text ending in 0..3 backslashes (either quote, 4 bodies, 4 prefixes) on the 7 entries with a literal scanner "
         "+ N generated "
         "strings, each for one of 27 modelled entries or 4 oracle-only entries R / M / W / FN (one in five: a valid input with random (i)/(ii)/(iii) "
         "/(iv) mutations, sometimes spliced; every token alphabet yields a Unicode white space / look-alike one time in ten and a "
@@ -219,7 +233,9 @@ LEVEL_TEXT = ("Lean 4 theorems (kernel-checked, for every string and every Unico
               "call as a step function whose recursive calls (inner text of balanced parentheses, || / && parts, !, exists(, forall() are all on strictly "
               "shorter strings (whenStep_shorter), no panic for every builder (whenFold_no_panic), call-tree height <= chars + 1 with any budget "
               "(whenDepth_le_length; <= 8194 frames at 4 KiB) - the outer-parentheses slice of parse_single_condition, extract_variables' index loops, "
-              "the argument splitting of actions and parse_import_spec; from the generic lemmas "
+              "the argument splitting of actions and parse_import_spec; the COST of evaluate_expression (evalCalls_linear: the instrumented model, "
+              "proved to compute the model's value, makes at most 2 * chars + 1 calls - 8193 at 4 KiB - for every text, classification and facts; the "
+              "retry-at-the-other-precedence-level variant is refuted, x2.6 calls per term); from the generic lemmas "
               "boundary_of_charIndices / ascii_delim_boundary / find_plus_len_boundary. Tied to the Rust code by a differential check "
               "(model prediction vs implementation per input) and supported by a labelled robustness search over all seven entry "
               "points in child processes. PARTIAL: rexile, the internals of nom's primitives and stack bytes are outside the model.")
@@ -259,6 +275,10 @@ def classify(case, impl, model, oracle, kind):
                 s = "when " + s
             if e in ("R", "M", "W", "PU", "AT", "PN", "AC", "MC", "RV", "RA", "WF", "WG", "FN") and _long_when_leaf(s):
                 return KNOWN_HANG_SIG
+            if e == "V":
+                # evaluate_expression makes at most 2n + 1 calls on n chars (C05.evalCalls_linear) and takes microseconds on every
+                # generated text: no answer within CASE_TIMEOUT is a super-linear blow-up (CHAIN family: long operator chains)
+                return "hang:V:evaluate_expression-superlinear"
         return "oracle:%s:%s" % (e, oracle.replace("fail ", ""))
     return "diff:%s" % e
 
